@@ -247,6 +247,9 @@ fn replacement() -> impl Strategy<Value = String> {
         Just("1.5".to_string()),
         Just("123456789012345678901234567890".to_string()),
         Just("18446744073709551615".to_string()),
+        Just("9223372036854775807".to_string()),
+        Just("1152921504606846976".to_string()),
+        Just("65536".to_string()),
         Just("18446744073709551616".to_string()),
         Just("".to_string()),
     ]
